@@ -88,8 +88,13 @@ def case_strategy(draw, big=False):
             elif k == 'load':
                 ops.append(['load', [gen.r6(draw(gen.logf(1, 1e3))), gen.r6(draw(st.floats(-300, 300)))], draw(st.integers(0, npl - 1))])
             else:
-                if len(freqs) > 1 and draw(st.booleans()):
+                u_ = draw(st.integers(0, 5))
+                if len(freqs) > 1 and u_ <= 2:
                     fac = draw(st.sampled_from(freqs))
+                elif u_ == 3:
+                    # a very fine step from the last frequency (parts in 1e7..1e5), as in a narrow-band sweep
+                    fac = freqs[-1] * (1.0 + draw(st.sampled_from([1e-7, 1e-6, 3e-6, -2e-6, 8e-6, -1e-5])))
+                    freqs.append(fac)
                 else:
                     fac = gen.r6(draw(st.floats(0.5, 2.0)))
                     freqs.append(fac)
@@ -117,7 +122,7 @@ def case_strategy(draw, big=False):
         case['ops'] = ops
     elif mode == 'sweep':
         case['steps'] = draw(st.integers(2, 4))
-        case['inc'] = gen.r6(case['f'] * draw(st.floats(0.01, 0.3)))
+        case['inc'] = gen.r6(case['f'] * (draw(st.floats(0.01, 0.3)) if draw(st.integers(0, 3)) else draw(st.sampled_from([1e-6, 5e-6, 2e-5]))))
         case['fields'] = draw(st.sampled_from(['far', 'near', 'none']))
         case['near'] = [gen.r6(draw(st.floats(-2, 2)) * lam), gen.r6(draw(st.floats(-2, 2)) * lam), gen.r6(draw(st.floats(0.5, 2)) * lam)]
     else:
